@@ -125,20 +125,20 @@ type FetchOut struct {
 
 // Step is one cache call with everything observed about it.
 type Step struct {
-	OpIndex int    `json:"op"`   // index in History.Ops
-	Kind    string `json:"k"`    // refresh | get | wait
-	Now     int64  `json:"now"`  // virtual time handed to the model
-	Pid     int    `json:"pid,omitempty"`
+	OpIndex int        `json:"op"`  // index in History.Ops
+	Kind    string     `json:"k"`   // refresh | get | wait
+	Now     int64      `json:"now"` // virtual time handed to the model
+	Pid     int        `json:"pid,omitempty"`
 	Srcs    []SrcOut   `json:"srcs,omitempty"`
 	Fetches []FetchOut `json:"fetches,omitempty"`
 
-	Err        bool   `json:"err"`             // Refresh returned an error
+	Err        bool   `json:"err"` // Refresh returned an error
 	ErrText    string `json:"err_text,omitempty"`
-	Got        *RecV  `json:"got,omitempty"`   // Get result (nil: no record)
-	CallsAll   []int  `json:"calls_all"`       // FetchAll calls per source during this step
-	CallsFetch []int  `json:"calls_fetch"`     // Fetch calls per source during this step
-	List       []RecV `json:"list"`            // List() after the step, sorted by provider
-	Len        int    `json:"len"`             // Len() after the step
+	Got        *RecV  `json:"got,omitempty"` // Get result (nil: no record)
+	CallsAll   []int  `json:"calls_all"`     // FetchAll calls per source during this step
+	CallsFetch []int  `json:"calls_fetch"`   // Fetch calls per source during this step
+	List       []RecV `json:"list"`          // List() after the step, sorted by provider
+	Len        int    `json:"len"`           // Len() after the step
 	Panic      string `json:"panic,omitempty"`
 	NoView     bool   `json:"no_view,omitempty"` // List/Len could not be observed right after this step
 }
